@@ -580,3 +580,54 @@ package plenccodec
 //@   ensures[C05,C02] wfsum() && len(tag) != 0 ==> at(result, len(data) + len(tag), venc(uint64(psum(len(c.fields)))), 10)   # the length prefix is the body size
 //@   ensures[C05,C02] len(tag) != 0 ==> (forall j int :: 0 <= j && j < len(tag) ==> result[len(data) + j] == tag[j])
 //@   ensures[C06,C11] len(result) >= len(data) && (forall j int :: 0 <= j && j < len(data) ==> result[j] == old(data[j]))
+
+// ---------------------------------------------------------------------------
+// descriptors of wrappers and composites (C14): the table of the property statement
+
+//@ func plenccodec.PointerWrapper.Descriptor
+//@   safety C14
+//@   ensures[C14,C09] result.ExplicitPresence
+//@   ensures[C14] result.Type == @plenccodec.Codec.Descriptor(p.Underlying).Type && result.LogicalType == @plenccodec.Codec.Descriptor(p.Underlying).LogicalType && result.Index == @plenccodec.Codec.Descriptor(p.Underlying).Index
+//@   ensures[C14] result.Name == @plenccodec.Codec.Descriptor(p.Underlying).Name && result.TypeName == @plenccodec.Codec.Descriptor(p.Underlying).TypeName && result.Elements == @plenccodec.Codec.Descriptor(p.Underlying).Elements
+
+//@ func plenccodec.BaseSliceWrapper.Descriptor
+//@   safety C14
+//@   ensures[C14,C09] result.Type == 5 && result.LogicalType == 0 && !result.ExplicitPresence && result.Index == 0 && len(result.Name) == 0 && len(result.TypeName) == 0
+//@   ensures[C14] len(result.Elements) == 1
+//@   ensures[C14] result.Elements[0].Type == @plenccodec.Codec.Descriptor(c.Underlying).Type && result.Elements[0].LogicalType == @plenccodec.Codec.Descriptor(c.Underlying).LogicalType && result.Elements[0].ExplicitPresence == @plenccodec.Codec.Descriptor(c.Underlying).ExplicitPresence
+//@   ensures[C14] result.Elements[0].Elements == @plenccodec.Codec.Descriptor(c.Underlying).Elements && result.Elements[0].TypeName == @plenccodec.Codec.Descriptor(c.Underlying).TypeName
+
+//@ func plenccodec.TimeCodec.Descriptor
+//@   safety C14
+//@   assigns nothing
+//@   ensures[C14,C09] result.Type == 8 && result.LogicalType == 1 && !result.ExplicitPresence && result.Index == 0 && len(result.Name) == 0 && len(result.TypeName) == 0 && len(result.Elements) == 0
+
+//@ func plenccodec.TimeCompatCodec.Descriptor
+//@   safety C14
+//@   assigns nothing
+//@   ensures[C14,C09] result.Type == 8 && result.LogicalType == 1 && !result.ExplicitPresence && result.Index == 0 && len(result.Name) == 0 && len(result.TypeName) == 0 && len(result.Elements) == 0
+
+//@ func plenccodec.BQTimestampCodec.Descriptor
+//@   safety C14
+//@   assigns nothing
+//@   ensures[C14,C09] result.Type == 11 && result.LogicalType == 1 && !result.ExplicitPresence && result.Index == 0 && len(result.Name) == 0 && len(result.TypeName) == 0 && len(result.Elements) == 0
+
+//@ func plenccodec.JSONMapCodec.Descriptor
+//@   safety C14
+//@   assigns nothing
+//@   ensures[C14,C09] result.Type == 9 && result.LogicalType == 0 && !result.ExplicitPresence && result.Index == 0 && len(result.Name) == 0 && len(result.TypeName) == 0 && len(result.Elements) == 0
+
+//@ func plenccodec.JSONArrayCodec.Descriptor
+//@   safety C14
+//@   assigns nothing
+//@   ensures[C14,C09] result.Type == 10 && result.LogicalType == 0 && !result.ExplicitPresence && result.Index == 0 && len(result.Name) == 0 && len(result.TypeName) == 0 && len(result.Elements) == 0
+
+//@ func plenccodec.InternedStringCodec.Descriptor
+//@   safety C14
+//@   assigns nothing
+//@   ensures[C14,C09] result.Type == 4 && result.LogicalType == 0 && !result.ExplicitPresence && result.Index == 0 && len(result.Name) == 0 && len(result.TypeName) == 0 && len(result.Elements) == 0
+
+//@ func plenccodec.*MapCodec.Descriptor
+//@   safety C14
+//@   ensures[C14,C09] result.Type == 5 && result.LogicalType == 4 && !result.ExplicitPresence && result.Index == 0 && len(result.Name) == 0 && len(result.TypeName) == 0
+//@   ensures[C14] len(result.Elements) == 1 && result.Elements[0].Type == 6 && result.Elements[0].LogicalType == 5 && len(result.Elements[0].Elements) == 2
